@@ -31,8 +31,8 @@ Proof.
   intros Hf Hi. unfold wt_write. rewrite Hf.
   destruct (wt_failat w) as [i|] eqn:Hfa.
   - destruct (N.eqb_spec i (wt_calls w)) as [->|_]; [congruence|].
-    eexists. split; [reflexivity|]. rewrite received_cons, <- received_rev. auto.
-  - eexists. split; [reflexivity|]. rewrite received_cons, <- received_rev. auto.
+    eexists. split; [reflexivity|]. rewrite received_cons, <- received_rev. cbn. repeat split; reflexivity.
+  - eexists. split; [reflexivity|]. rewrite received_cons, <- received_rev. cbn. repeat split; reflexivity.
 Qed.
 
 Lemma wt_write_hit p w : wt_failed w = false -> wt_failat w = Some (wt_calls w) ->
@@ -43,7 +43,7 @@ Proof.
   intros Hf Hi. unfold wt_write. rewrite Hf, Hi, N.eqb_refl.
   fold (accepted (wt_m w) (wt_term w) p).
   rewrite split_at_spec. eexists. split; [reflexivity|].
-  rewrite received_cons, <- received_rev. auto.
+  rewrite received_cons, <- received_rev. cbn. repeat split; reflexivity.
 Qed.
 
 Lemma wt_write_failed p w : wt_failed w = true -> wt_write p w = (0, Some (wt_err w), w).
@@ -187,7 +187,7 @@ Proof.
         exists w'. split; [reflexivity|]. split; [exact Hf'|].
         unfold received_at. cbn [N.to_nat firstn concat nth app]. exact Hr.
       * destruct Hc as (w' & -> & Hh' & Hr & Hm & Ht). cbn [jpred] in Hh'.
-        specialize (IH w' _ Hh'). cbn zeta in IH.
+        specialize (IH w' _ Hh'). cbn beta iota zeta in IH.
         set (c := N.of_nat (length (filter nonempty ps))) in *.
         replace (N.of_nat (Datatypes.S (length (filter nonempty ps)))) with (N.succ c) by lia.
         destruct (N.ltb_spec (N.pred (N.pos q)) c) as [Hlt|Hge].
@@ -263,7 +263,7 @@ Proof.
         now rewrite received_at_app_l by (fold c; exact Hlt).
       * destruct Hc as (w' & -> & Hh' & Hr & Hm & Ht).
         destruct (N.leb_spec c j') as [_|H]; [|lia].
-        specialize (IH w' (Some (j' - c)) (N.succ n) Hh'). cbn zeta in IH.
+        specialize (IH w' (Some (j' - c)) (N.succ n) Hh'). cbn beta iota zeta in IH.
         destruct (N.ltb_spec (j' - c) (N.of_nat (length (calls_of ops)))) as [Hlt2|Hge2].
         -- destruct (N.ltb_spec j' (c + N.of_nat (length (calls_of ops)))) as [_|H]; [|lia].
            destruct IH as (w'' & -> & Hf'' & Hr''). exists w''.
@@ -293,16 +293,16 @@ Proof. split; [reflexivity|]. intros k. discriminate. Qed.
 Lemma received_at_prefix m t calls j : j < N.of_nat (length calls) ->
   exists rest, concat calls = received_at m t calls j ++ rest.
 Proof.
-  intros Hj. unfold received_at.
-  rewrite <- (firstn_skipn (N.to_nat j) calls) at 1.
-  rewrite concat_app.
-  destruct (skipn (N.to_nat j) calls) as [|p r] eqn:Hs.
+  intros Hj. unfold received_at. unfold bytes in *. assert (Hjn : (N.to_nat j < length calls)%nat) by lia.
+  generalize dependent (N.to_nat j). intros n Hjn.
+  pose proof (firstn_skipn n calls) as Hfs.
+  destruct (skipn n calls) as [|p r] eqn:Hs.
   - apply (f_equal (@length _)) in Hs. rewrite skipn_length in Hs. cbn in Hs. lia.
-  - assert (Hn : nth (N.to_nat j) calls [] = p).
-    { rewrite <- (firstn_skipn (N.to_nat j) calls), Hs, app_nth2 by (rewrite firstn_length; lia).
-      rewrite firstn_length. replace (N.to_nat j - Nat.min (N.to_nat j) (length calls))%nat with 0%nat by lia. reflexivity. }
-    rewrite Hn. cbn [concat].
-    exists (skipn (N.to_nat (accepted m t p)) p ++ concat r).
+  - assert (Hn : nth n calls [] = p).
+    { rewrite <- Hfs, app_nth2 by (rewrite firstn_length; lia).
+      rewrite firstn_length. replace (n - Nat.min n (length calls))%nat with 0%nat by lia. reflexivity. }
+    exists (skipn (N.to_nat (accepted m t p)) p ++ concat r). rewrite Hn.
+    rewrite <- Hfs at 1. rewrite concat_app. cbn [concat].
     rewrite <- app_assoc. f_equal. now rewrite app_assoc, firstn_skipn.
 Qed.
 
@@ -328,12 +328,19 @@ Proof.
   destruct (copy_bytes (MF.mux_header hv ha) w) as [[e|] w1]; [reflexivity|]. apply flv_write_tags_wops.
 Qed.
 
+Lemma flv_tag_calls tags :
+  concat (map (filter nonempty) (map (fun t => [MF.mux_tag_header t; MF.t_body t; MF.mux_tag_trailer t]) tags))
+  = concat (map MF.mux_tag_writes tags).
+Proof.
+  induction tags as [|t r IH]; [reflexivity|]. cbn [map concat]. rewrite IH. f_equal.
+  unfold MF.mux_tag_writes, MF.mux_tag_header, MF.mux_tag_trailer, be4. cbn [filter nonempty].
+  destruct (MF.t_body t); reflexivity.
+Qed.
+
 Lemma flv_calls hv ha tags : calls_of (flv_wops hv ha tags) = MF.mux_writes hv ha tags.
 Proof.
-  unfold calls_of, flv_wops, MF.mux_writes. cbn [map concat filter nonempty MF.mux_header app].
-  f_equal. induction tags as [|t r IH]; [reflexivity|]. cbn [map concat]. rewrite IH. f_equal.
-  unfold MF.mux_tag_writes. cbn [filter nonempty MF.mux_tag_header MF.mux_tag_trailer be4].
-  destruct (MF.t_body t); reflexivity.
+  unfold calls_of, flv_wops, MF.mux_writes. cbn [map concat]. rewrite flv_tag_calls.
+  unfold MF.mux_header, MF.sigFLV. cbn [app filter nonempty]. reflexivity.
 Qed.
 
 Lemma flv_wire hv ha tags : concat (concat (flv_wops hv ha tags)) = MF.mux hv ha tags.
